@@ -68,7 +68,7 @@ Qed.
 (* ---- the theorem ------------------------------------------------------------------------------------------- *)
 
 Section Main.
-  Variable fx : bool.                (* true: the current code; false: before commit 063269b *)
+  Variable fx : bp_code.             (* Cur: the current code; Old / Mid: before commits 063269b / 9223b0e *)
   Variable s : bstate.
   Hypothesis HI : BInv s.
   Hypothesis HF : BFix s.
@@ -250,7 +250,7 @@ End Main.
 (* the current code *)
 Theorem boot_parse_view_inv s : BInv s -> BFix s -> bp_names_ok s -> lspace (bl s) <= 4294967295 ->
   boot_parse (boot_view s) = POk (reopened s).
-Proof. intros. apply (boot_parse_gen_view true); assumption. Qed.
+Proof. intros. apply (boot_parse_gen_view Cur); assumption. Qed.
 
 Print Assumptions boot_parse_full_view.
 Print Assumptions boot_parse_view_inv.
